@@ -672,22 +672,19 @@ class Transition(VPPModelElement):
 
     def Parse(self):
         for i in self.BLOB_STRING.split(';'):
-            if i.find('toModel') > -1:
-                state_to_id = mass_replace(i.replace('toModel', ''))
+            # An entry is 'key=value'; the first one shares its piece with the 'id:"name":type {' header.
+            # The key decides, not the letters anywhere in the piece (a trigger named 'EventAftereffect' has no effect).
+            key, separator, value = i[i.rfind('{') + 1:].partition('=')
+            key = mass_replace(key).strip()
+            if key == 'toModel':
                 # This yields multiple IDs. Ownership parent child relationships. It seems we can get the name from the last one
-                self.STATE_TO_ID = GetLastIDFromColonList(state_to_id)
-            if i.find('fromModel') > -1:
-                state_from_id = mass_replace(i.replace('fromModel', ''))
-                # This yields multiple IDs. Ownership parent child relationships. It seems we can get the name from the last one
-                self.STATE_FROM_ID = GetLastIDFromColonList(state_from_id)
-            if i.find('guard') > -1:
-                guard = mass_replace(i.replace('guard', ''))
-                # This yields multiple IDs. Ownership parent child relationships. It seems we can get the name from the last one
-                self.GUARD = GetLastIDFromColonList(guard)
-            if i.find('effect') > -1:
-                activity = mass_replace(i.replace('effect', ''))
-                # This yields multiple IDs. Ownership parent child relationships. It seems we can get the name from the last one
-                self.ACTIVITY = GetLastIDFromColonList(activity)
+                self.STATE_TO_ID = GetLastIDFromColonList(mass_replace(value))
+            if key == 'fromModel':
+                self.STATE_FROM_ID = GetLastIDFromColonList(mass_replace(value))
+            if key == 'guard':
+                self.GUARD = GetLastIDFromColonList(mass_replace(value))
+            if key == 'effect':
+                self.ACTIVITY = GetLastIDFromColonList(mass_replace(value))
 
 
 class Guard(VPPModelElement):
